@@ -27,7 +27,50 @@ def shards(tier, seed):
         out.append({'name': f'random-items-{rk}', 'what': 'random-items', 'rng': rk,
                     'nmax': 4 if tier == 'quick' else 5,
                     'seeds': 3 if tier == 'quick' else 12})
+    out.append({'name': 'proc-lookup', 'what': 'proc-lookup',
+                'kinds': 2 if tier == 'quick' else 5})
     return out
+
+
+def run_proc_lookup(spec, res):
+    """A key the joined dataset does not contain is looked up inside the
+    workers of a parallel map / pool prefetch, on every backend: the consumer
+    gets the examples before it and then a lookup error (never a value, a
+    broken pool or a hang)."""
+    import os
+    import json
+    import subprocess
+    from ..common import PYTHON, HOME, REPO
+    from ..procpool import BACKENDS
+    env = dict(os.environ, PYTHONPATH=f'{REPO}:{HOME}', OMP_NUM_THREADS='1',
+               MKL_NUM_THREADS='1')
+    kinds = ('dict', 'concat', 'slice', 'intersperse', 'map')[:spec['kinds']]
+    for be in ('t',) + tuple(BACKENDS):
+        for j, kind in enumerate(kinds):
+            sc = {'backend': be, 'kind': kind, 'via': ('parmap', 'prefetch')[j % 2]}
+            case = {'lookup_in_workers': sc}
+            sig = {'backend': be, 'harness': 'process-pool', 'aspect': 'absent-key'}
+            res.case(('proc-lookup', be, kind), True)
+            try:
+                p = subprocess.run([PYTHON, '-W', 'ignore', '-m', 'vlib.c03_child',
+                                    json.dumps(sc)], cwd=str(HOME), env=env,
+                                   capture_output=True, text=True, timeout=90)
+            except subprocess.TimeoutExpired:
+                res.violation('lookup-error-lost-in-transport', case,
+                              {'consumer': 'blocked for 90 s'}, sig=sig)
+                continue
+            line = [l for l in p.stdout.splitlines() if l.startswith('RESULT ')]
+            if not line:
+                res.inconclusive_because(f'lookup child crashed: {p.stderr[-300:]}')
+                continue
+            r = json.loads(line[0][7:])
+            res.count('absent_key_lookups_in_workers')
+            if r['outcome'] != 'raised':
+                res.violation('absent-key-returned-value', case, r, sig=sig)
+            elif 'LookupError' not in r['mro']:
+                res.violation('lookup-error-lost-in-transport', case, r, sig=sig)
+            elif r['delivered'] != [2, 3]:
+                res.violation('items-differ', case, r, sig=sig)
 
 
 def run_random_items(spec, res):
@@ -77,6 +120,8 @@ def nontrivial(prog, status, m, o):
 def run_shard(spec, res):
     if spec['what'] == 'random-items':
         return run_random_items(spec, res)
+    if spec['what'] == 'proc-lookup':
+        return run_proc_lookup(spec, res)
     progshards.run(spec, res, PROPERTY, ASPECTS, progengine.judge_c03, nontrivial,
                    prefix_hook_factory=prefix_hook_factory)
 
